@@ -303,6 +303,10 @@ def cells():
     rs = _type("rs", 2000, 4096, [_off("a", "reserved", 1, rid="r1", rcap=1), _off("a", "od", 100)])
     out.append(_scn("cell/reserved-block", [rs, small], [_pool("p0", 10, types=["rs"]), _pool("p1", 1, types=["s"])],
                     [pod("w0", 1900), pod("w1", 1900)]))
+    # 11. observation (not judged): the only viable required OR-term is the FIRST one and the pool carries a PreferNoSchedule taint - Karpenter
+    #     drops the term before it adds the toleration, the pod stays pending (Obs_C19_Unplaced)
+    out.append(_scn("cell/obs-or-term-vs-prefer-no-schedule", [small, large], [_pool("p0", 0, labels={"team": "x"}, taints=[dict(sc.PREFER)])],
+                    [pod("w0", terms=[[sc.expr("team", "In", ["x"])], [sc.expr("team", "In", ["y"])]])]))
     res = []
     for s in out:
         for w in (1, 2, 8):
